@@ -27,7 +27,7 @@ RULE = (
     ">=2 full steps. Distinct = SHA-1 of the case."
 )
 BUDGET = {"quick": {"examples": 200, "shards": 4}, "thorough": {"fuzz_runs": 3000, "examples": 2500, "shards": 16}}
-EXPECTED_LABELS = ("manual", "elstep:failed", "replace:dest", "replace:origin", "engine:SX", "engine:MX", "compile:not-ready:raised", "compile:ready:returned", "compile:after-add", "compile:after-reinit",
+EXPECTED_LABELS = ("step_fail", "restep_all", "manual", "elstep:failed", "replace:dest", "replace:origin", "engine:SX", "engine:MX", "compile:not-ready:raised", "compile:ready:returned", "compile:after-add", "compile:after-reinit",
                    "compile:after-2-steps", "compile:before-any-step", "same-symbols-restep", "late:ramp", "late:link", "late:branch", "late:source",
                    "value-checked")
 ASSUMPTIONS = ["re-initialisation always uses fresh engine variables (re-initialising with the same symbols would be a no-op)",
@@ -63,6 +63,8 @@ def cases(draw):
             ops.append(["elstep", draw(st.sampled_from(all_ids))])
         elif c == 5:
             ops.append(draw(st.sampled_from([["add_late"], ["manual", draw(st.integers(0, 30)), draw(st.booleans())]])))
+        elif c == 6 and draw(st.booleans()):
+            ops.append(draw(st.sampled_from([["step_fail", draw(st.integers(0, 2))], ["restep_all", draw(st.integers(0, 2))]])))
         elif c == 6:
             ops.append(draw(st.sampled_from([["add_late"], ["replace", "dest", draw(st.integers(0, 5))], ["replace", "origin", draw(st.integers(0, 5))]])))
         else:
@@ -195,6 +197,43 @@ def check_case(case, ctx):
                 return
             fresh[i] = True
             since.add("elstep")
+        elif op[0] == "step_fail":
+            # a full step that fails half-way (a model parameter of the links is missing): origins are stepped,
+            # links are re-initialised but not stepped
+            valid = guarded(ctx, "is_valid", net.is_valid)
+            if crashed(valid) or not valid[0]:
+                continue
+            p2, o2 = parset(sp, op[1])
+            bad = {k_: v for k_, v in p2.items() if k_ != "kappa"}
+            try:
+                net.step(engine=eng, **S.opts_kwargs(o2), **bad)
+                continue  # did not fail (no link?): nothing to model
+            except Exception:
+                ctx.label("step_fail")
+            for i in present:
+                init[i] = True
+                if els[i]._states:
+                    fresh[i] = i.startswith("O")  # origins were stepped before the links failed
+            cur_pars, cur_opts = p2, o2
+            since.add("reinit" if n_steps else "init")
+        elif op[0] == "restep_all":
+            # the per-element API: every stateful element stepped again, without re-initialisation, with another
+            # parameter set - equivalent to a full step on the same symbols
+            if not all(init[j] for j in present if declared(els[j])) or not all(fresh[j] for j in present if els[j]._states):
+                continue
+            cur_pars, cur_opts = parset(sp, op[1])
+            order_ = [i for i in sorted(present) if i.startswith("O") and els[i]._states] + [i for i in sorted(present) if i.startswith("L")]
+            ok_ = True
+            for i in order_:
+                # element-level step: every option passed explicitly (Link.step_dynamics has its own defaults)
+                flags = {name: (name in cur_opts) for name in S.OPT_NAMES}
+                r = guarded(ctx, "element.step", lambda: els[i].step(net=net, engine=eng, **flags, **cur_pars))
+                if crashed(r):
+                    return
+            ctx.label("restep_all")
+            if not since:
+                last_full = op[1]
+            n_steps += 1
         elif op[0] == "manual":
             # the per-element API only: (optionally a step of one element that fails because nothing is initialised
             # yet,) then init_vars of every element, then a step of every stateful element except that one
